@@ -142,6 +142,15 @@ CLAIMS['C20'] = dict(
          '(quick tier) are not decided.',
     technique=TECH_B + ' (real-arithmetic mode, function cuts on un-optimised IR)', design='0.2 (C20)')
 
+CLAIMS['C03'] = dict(
+    text='Point-location half only: BIHTraverser over small hand-laid trees with fully symbolic planes, axes, boxes, probe point and membership oracle returns a '
+         'volume iff the point is inside some volume, returns only a volume that contains the point, and evaluates membership only inside bounding boxes '
+         '(builder invariant assumed).',
+    note='The navigation state machine (OrangeTrackView), SimpleUnitTracker distance search and boundary crossing, nested universes and rectangular arrays are '
+         'not decided: hand-laying a complete OrangeParamsData with symbolic surfaces was not finished within the session. The property is therefore '
+         'covered only in its "no volume is missed or invented when locating a point" mechanism; see also C10 (logic) and C12 (surface intersections).',
+    technique=TECH_B + ' (real-arithmetic mode; comparisons only)', design='0.5 (C03)')
+
 NOT_APPLICABLE = {
     'C07': 'quantifies over interleavings of host threads driving whole Steppers over shared_ptr/std::vector/OpenMP state: no installed engine '
            'models concurrent libstdc++ (CBMC C++ front end cannot parse it; own IR executors are single-threaded). See DESIGN.md C07.',
